@@ -82,6 +82,7 @@ def gen_scenarios(spec, rng, n):
             if client == "rest" and not m.get("http"):
                 continue
             actors[j % nact]["ops"].append(gen_op(spec, rng, fs, s, m, af, f"o{j}", client))
+        engine.add_in_place_edits(rng, actors)
         if rng.random() < 0.25:
             # the host application re-seeds the global PRNG with the same value before every call
             svc0 = um[0][1]["name"]
